@@ -1,5 +1,5 @@
 (* C15 - property theorems only. *)
-From HV Require Import Prelude Stats C15_Model C15_Check C15_Proofs.
+From HV Require Import Prelude Stats C15_Model C15_Check C15_Proofs C15_SeqModel C15_SeqCheck C15_SeqProofs.
 
 (* Column names written by Phenotypes.write (after the fix) are pairwise distinct,
    as many as the input names, each the input name itself or that name with a
@@ -163,3 +163,213 @@ Theorem C15_names_check_sound : forall inp out,
   length inp = length out /\ NoDup out /\ (NoDup inp -> out = inp).
 Proof. exact names_unique_ok_sound. Qed.
 Print Assumptions C15_names_check_sound.
+
+(* ======================================================================================
+   Table operations applied one after the other to the same object (C15_SeqModel).
+   ====================================================================================== *)
+
+(* subset, both axes at once: the result lists the requested ids the table holds, in the
+   requested order, and cell (s, n) of the result is the cell stored at the first position
+   holding s resp. n ([idx], see C15_index_of_first); an axis that is not requested is
+   returned as it is *)
+Theorem C15_subset_exact :
+  forall (fl key : Type) (key_eqb : key -> key -> bool),
+  (forall a b, key_eqb a b = true <-> a = b) ->
+  forall (d0 : fl) (k0 : key) (rs rn : option (list key)) (t t' : tab fl key),
+  subset fl key key_eqb d0 k0 rs rn t = Ok t' ->
+  samples t' = sel key key_eqb rs (samples t) /\ names t' = sel key key_eqb rn (names t)
+  /\ data t' = map (cols_sel fl key key_eqb d0 rn t) (rows_sel fl key key_eqb rs t).
+Proof. exact subset_exact_lemma. Qed.
+Print Assumptions C15_subset_exact.
+
+(* samples and names together = the composition of the single-axis subsets
+   (C15_subset_spec_samples, C15_subset_spec_names), errors included *)
+Theorem C15_subset_two_axes :
+  forall (fl key : Type) (key_eqb : key -> key -> bool) (d0 : fl) (k0 : key)
+         (rs rn : option (list key)) (t : tab fl key),
+  subset fl key key_eqb d0 k0 rs rn t
+  = bind (subset fl key key_eqb d0 k0 rs None t) (subset fl key key_eqb d0 k0 None rn).
+Proof. exact subset_two_axes_lemma. Qed.
+Print Assumptions C15_subset_two_axes.
+
+(* the branches of subset: ids the table does not hold are ignored ... *)
+Theorem C15_subset_unknown_ignored :
+  forall (fl key : Type) (key_eqb : key -> key -> bool) (d0 : fl) (k0 : key)
+         (rs rn : list key) (t : tab fl key),
+  subset fl key key_eqb d0 k0 (Some rs) (Some rn) t
+  = subset fl key key_eqb d0 k0 (Some (filter (present key key_eqb (samples t)) rs))
+                                (Some (filter (present key key_eqb (names t)) rn)) t.
+Proof. exact subset_unknown_ignored_lemma. Qed.
+Print Assumptions C15_subset_unknown_ignored.
+
+(* ... a request naming only unknown samples returns no row ... *)
+Theorem C15_subset_all_unknown :
+  forall (fl key : Type) (key_eqb : key -> key -> bool),
+  (forall a b, key_eqb a b = true <-> a = b) ->
+  forall (d0 : fl) (k0 : key) (req : list key) (t : tab fl key),
+  has_dup key key_eqb (samples t) = false -> (forall k, In k req -> ~ In k (samples t)) ->
+  subset fl key key_eqb d0 k0 (Some req) None t = Ok (mktab [] (names t) []).
+Proof. exact subset_all_unknown_lemma. Qed.
+Print Assumptions C15_subset_all_unknown.
+
+(* ... and it raises ValueError exactly when a requested axis holds an id twice *)
+Theorem C15_subset_raises_iff_duplicate_ids :
+  forall (fl key : Type) (key_eqb : key -> key -> bool) (d0 : fl) (k0 : key)
+         (rs rn : option (list key)) (t : tab fl key),
+  if dup_axis fl key key_eqb (is_some rs) (is_some rn) t
+  then subset fl key key_eqb d0 k0 rs rn t = Err E_Value
+  else exists t', subset fl key key_eqb d0 k0 rs rn t = Ok t'.
+Proof. exact subset_result. Qed.
+Print Assumptions C15_subset_raises_iff_duplicate_ids.
+
+Theorem C15_has_dup_iff_not_NoDup :
+  forall (key : Type) (key_eqb : key -> key -> bool),
+  (forall a b, key_eqb a b = true <-> a = b) ->
+  forall l, has_dup key key_eqb l = false <-> NoDup l.
+Proof. exact has_dup_NoDup. Qed.
+Print Assumptions C15_has_dup_iff_not_NoDup.
+
+(* append with a column of the wrong length raises ValueError (and C15_append_spec is the other branch) *)
+Theorem C15_append_wrong_length :
+  forall (fl key : Type) nm col (t : tab fl key),
+  length col <> length (data t) -> append fl key false nm col t = Err E_Value.
+Proof. exact append_mismatch. Qed.
+Print Assumptions C15_append_wrong_length.
+
+(* SEQUENCES.  The k-th observation of a run is the k-th operation applied to the table the
+   object holds after the first k operations - nothing else of the history enters *)
+Theorem C15_seq_step_depends_on_current_table_only :
+  forall (fl key : Type) (key_eqb : key -> key -> bool) (d0 : fl) (k0 : key) (is9 : fl -> bool)
+         (uniq : list key -> list key) (os : list (sop fl key)) (t : tab fl key) (k : nat),
+  nth_error (run fl key key_eqb d0 k0 is9 uniq os t) k
+  = option_map (fun o => gstep fl key key_eqb d0 k0 is9 uniq o
+                           (after fl key key_eqb d0 k0 is9 uniq (firstn k os) t))
+               (nth_error os k).
+Proof. exact run_nth_lemma. Qed.
+Print Assumptions C15_seq_step_depends_on_current_table_only.
+
+(* every table the object holds, and every table a call returns, is rectangular with one
+   sample per row - after any sequence of operations, for any outputs of standardize *)
+Theorem C15_seq_tables_stay_rectangular :
+  forall (fl key : Type) (key_eqb : key -> key -> bool),
+  (forall a b, key_eqb a b = true <-> a = b) ->
+  forall (d0 : fl) (k0 : key) (is9 : fl -> bool) (uniq : list key -> list key),
+  (forall l, length (uniq l) = length l) ->
+  forall (os : list (sop fl key)) (t : tab fl key),
+  wf fl key t ->
+  Forall (fun x => wf fl key (snd x) /\ forall t', fst x = Ok t' -> wf fl key t')
+         (run fl key key_eqb d0 k0 is9 uniq os t).
+Proof. exact run_wf_lemma. Qed.
+Print Assumptions C15_seq_tables_stay_rectangular.
+
+(* for every operation list and every position of a subset in it: the call returns exactly the
+   requested (and held) rows and columns of the table the object holds AT THAT MOMENT, in
+   request order; in place, that is the object's table from then on *)
+Theorem C15_seq_subset_exact :
+  forall (fl key : Type) (key_eqb : key -> key -> bool),
+  (forall a b, key_eqb a b = true <-> a = b) ->
+  forall (d0 : fl) (k0 : key) (is9 : fl -> bool) (uniq : list key -> list key)
+         (os : list (sop fl key)) (t0 : tab fl key) (k : nat) (rs rn : option (list key)) (ip : bool),
+  nth_error os k = Some (SSubset rs rn ip) ->
+  let t := after fl key key_eqb d0 k0 is9 uniq (firstn k os) t0 in
+  skipped fl key key_eqb (SSubset rs rn ip) t = false ->
+  exists t', nth_error (run fl key key_eqb d0 k0 is9 uniq os t0) k = Some (Ok t', if ip then t' else t)
+    /\ samples t' = sel key key_eqb rs (samples t) /\ names t' = sel key key_eqb rn (names t)
+    /\ data t' = map (cols_sel fl key key_eqb d0 rn t) (rows_sel fl key key_eqb rs t).
+Proof. exact seq_subset_exact_lemma. Qed.
+Print Assumptions C15_seq_subset_exact.
+
+(* ... and every check_missing(discard_also=True) in it keeps exactly the (sample, row) pairs of
+   the current table whose row holds no -9, in order *)
+Theorem C15_seq_missing_exact :
+  forall (fl key : Type) (key_eqb : key -> key -> bool),
+  (forall a b, key_eqb a b = true <-> a = b) ->
+  forall (d0 : fl) (k0 : key) (is9 : fl -> bool) (uniq : list key -> list key),
+  (forall l, length (uniq l) = length l) ->
+  forall (os : list (sop fl key)) (t0 : tab fl key) (k : nat),
+  nth_error os k = Some (SMissing true) ->
+  let t := after fl key key_eqb d0 k0 is9 uniq (firstn k os) t0 in
+  wf fl key t0 ->
+  exists t', nth_error (run fl key key_eqb d0 k0 is9 uniq os t0) k = Some (Ok t', t')
+    /\ names t' = names t
+    /\ combine (samples t') (data t')
+       = filter (fun '(_, row) => negb (row_missing fl is9 row)) (combine (samples t) (data t)).
+Proof. exact seq_missing_exact_lemma. Qed.
+Print Assumptions C15_seq_missing_exact.
+
+(* a sample whose row holds -9 when check_missing(discard_also=True) runs is gone for good:
+   whatever was done before and whatever is done afterwards, the object does not list it, no
+   look-up resolves it, and no subset returns it *)
+Theorem C15_seq_removed_sample_never_resolves :
+  forall (fl key : Type) (key_eqb : key -> key -> bool),
+  (forall a b, key_eqb a b = true <-> a = b) ->
+  forall (d0 : fl) (k0 : key) (is9 : fl -> bool) (uniq : list key -> list key)
+         (pre post : list (sop fl key)) (t0 : tab fl key) (s : key) (row : list fl),
+  let t := after fl key key_eqb d0 k0 is9 uniq pre t0 in
+  length (samples t) = length (data t) -> NoDup (samples t) ->
+  In (s, row) (combine (samples t) (data t)) -> row_missing fl is9 row = true ->
+  let t2 := after fl key key_eqb d0 k0 is9 uniq (pre ++ SMissing true :: post) t0 in
+  ~ In s (samples t2)
+  /\ index_of key key_eqb s (samples t2) 0 = None
+  /\ forall req rn r, subset fl key key_eqb d0 k0 (Some req) rn t2 = Ok r -> ~ In s (samples r).
+Proof. exact removed_never_resolves_lemma. Qed.
+Print Assumptions C15_seq_removed_sample_never_resolves.
+
+(* a sample whose row holds no -9 stays, with its row *)
+Theorem C15_missing_keeps_complete_samples :
+  forall (fl key : Type) (is9 : fl -> bool) (t t' : tab fl key) s row,
+  length (samples t) = length (data t) ->
+  check_missing fl key is9 true t = Ok t' ->
+  In (s, row) (combine (samples t) (data t)) -> row_missing fl is9 row = false ->
+  In (s, row) (combine (samples t') (data t')).
+Proof. exact missing_keeps_lemma. Qed.
+Print Assumptions C15_missing_keeps_complete_samples.
+
+(* no operation ever adds a sample *)
+Theorem C15_seq_samples_never_grow :
+  forall (fl key : Type) (key_eqb : key -> key -> bool),
+  (forall a b, key_eqb a b = true <-> a = b) ->
+  forall (d0 : fl) (k0 : key) (is9 : fl -> bool) (uniq : list key -> list key)
+         (os : list (sop fl key)) (t : tab fl key),
+  incl (samples (after fl key key_eqb d0 k0 is9 uniq os t)) (samples t).
+Proof. exact after_samples_incl_lemma. Qed.
+Print Assumptions C15_seq_samples_never_grow.
+
+(* the write+read step of the sequence model is the file round trip of C15_pheno_roundtrip *)
+Theorem C15_write_read_is_roundtrip :
+  forall (tok fl : Type) (text : tok -> list Z) (parse : tok -> option fl)
+         (fmt : fl -> tok) (word : list Z -> tok),
+  (forall x, parse (fmt x) = Some x) -> (forall s, text (word s) = s) ->
+  forall t : tab fl name,
+  wf fl name t -> samples t <> [] -> names t <> [] ->
+  exists t', write_read fl name unique_names t = Ok t'
+    /\ pheno_read tok fl text parse None
+         (pheno_write tok fl fmt word (mkt (samples t) (names t) (data t)))
+       = Ok (mkt (samples t') (names t') (data t'), 0).
+Proof. exact write_read_is_roundtrip_lemma. Qed.
+Print Assumptions C15_write_read_is_roundtrip.
+
+(* soundness of the subset clause of the sequence checker: whenever the checker (association-list
+   look-ups in the table observed before the step) computes an expected table, it is the table of
+   C15_subset_exact; holds_step = true says the implementation returned it *)
+Theorem C15_seq_checker_subset_sound :
+  forall (rs rn : option (list name)) (ip : bool) (t e : ntab),
+  nskipped (SSubset rs rn ip) t = false ->
+  expect_subset rs rn t = Some e ->
+  subset Z name name_eqb 0 nnil rs rn t = Ok e
+  /\ samples e = sel name name_eqb rs (samples t) /\ names e = sel name name_eqb rn (names t)
+  /\ data e = map (cols_sel Z name name_eqb 0 rn t) (rows_sel Z name name_eqb rs t).
+Proof. exact expect_subset_sound_lemma. Qed.
+Print Assumptions C15_seq_checker_subset_sound.
+
+(* the hypotheses are satisfiable, and the boundary the sequence theorems are about: a look-up,
+   a discard of a sample that is not the last one, a look-up of the samples behind it *)
+Example C15_seq_lookup_discard_lookup :
+  let s0 : name := [115; 48] in let s1 : name := [115; 49] in let s2 : name := [115; 50] in
+  let p : name := [112] in
+  let t0 : ntab := mktab [s0; s1; s2] [p] [[1]; [m9bits]; [3]] in
+  wf Z name t0 /\ NoDup (samples t0)
+  /\ map fst (nrun [SIndex true true; SMissing true; SSubset (Some [s2; s1; s0]) None false] t0)
+     = [Ok t0; Ok (mktab [s0; s2] [p] [[1]; [3]]); Ok (mktab [s2; s0] [p] [[3]; [1]])].
+Proof. exact seq_lookup_discard_lookup_example. Qed.
+Print Assumptions C15_seq_lookup_discard_lookup.
